@@ -291,6 +291,74 @@ impl Monitor {
             self.inconclusive.push(why.to_string());
         }
     }
+    /// Serialise the collected state (for a child process reporting to its parent).
+    pub fn dump(&self) -> Value {
+        json!({
+            "evaluations": self.evaluations,
+            "distinct": self.distinct.iter().map(|k| hex::encode(k)).collect::<Vec<_>>(),
+            "counters": self.counters,
+            "samples": self.samples,
+            "violation_count": self.violation_count,
+            "violations": self.violations.iter().map(|v| json!({"signature": v.signature, "what": v.what, "replay": v.replay})).collect::<Vec<_>>(),
+            "known_hits": self.known_hits,
+            "extra": self.extra,
+            "inconclusive": self.inconclusive,
+        })
+    }
+    /// Merge a `dump()` produced by another process.
+    pub fn absorb(&mut self, d: &Value) {
+        self.evaluations += d["evaluations"].as_u64().unwrap_or(0);
+        if let Some(a) = d["distinct"].as_array() {
+            for k in a {
+                if let Some(b) = k.as_str().and_then(|s| hex::decode(s).ok()) {
+                    if b.len() == 16 {
+                        let mut kk = [0u8; 16];
+                        kk.copy_from_slice(&b);
+                        self.distinct.insert(kk);
+                    }
+                }
+            }
+        }
+        if let Some(c) = d["counters"].as_object() {
+            for (k, v) in c {
+                *self.counters.entry(k.clone()).or_insert(0) += v.as_u64().unwrap_or(0);
+            }
+        }
+        if let Some(a) = d["samples"].as_array() {
+            for s in a {
+                if self.samples.len() < self.max_samples {
+                    self.samples.push(s.clone());
+                }
+            }
+        }
+        self.violation_count += d["violation_count"].as_u64().unwrap_or(0);
+        if let Some(a) = d["violations"].as_array() {
+            for v in a {
+                let sig = v["signature"].as_str().unwrap_or("").to_string();
+                let same = self.violations.iter().filter(|x| x.signature == sig).count();
+                if same < 3 && self.violations.len() < 30 {
+                    self.violations.push(Violation { signature: sig, what: v["what"].as_str().unwrap_or("").to_string(), replay: v["replay"].clone() });
+                }
+            }
+        }
+        if let Some(c) = d["known_hits"].as_object() {
+            for (k, v) in c {
+                *self.known_hits.entry(k.clone()).or_insert(0) += v.as_u64().unwrap_or(0);
+            }
+        }
+        if let Some(c) = d["extra"].as_object() {
+            for (k, v) in c {
+                self.extra.insert(k.clone(), v.clone());
+            }
+        }
+        if let Some(a) = d["inconclusive"].as_array() {
+            for w in a {
+                if let Some(s) = w.as_str() {
+                    self.inconclusive(s);
+                }
+            }
+        }
+    }
     pub fn elapsed_s(&self) -> f64 {
         self.start.elapsed().as_secs_f64()
     }
